@@ -280,6 +280,20 @@ def main():
         raise ValueError("decompressor.rs reverse_complement_segment: per-base closure not found")
     w("/-- decompressor.rs `reverse_complement_segment`: the per-base rule (translated). -/")
     w("def readerRcBase (b : Nat) : Nat := " + translate_fn(mm.group(1), "base", funcs))
+    # --- ContigTask ordering: the keys compared, in nesting order, and which are reversed
+    m = re.search(r"impl Ord for ContigTask \{(.*?)\n\}\n", a, flags=re.S)
+    if not m:
+        raise ValueError("impl Ord for ContigTask not found")
+    keys = []
+    for cm in re.finditer(r"(self|other)\.(\w+)\.cmp\(&(self|other)\.(\w+)\)", strip_comments(m.group(1))):
+        if cm.group(2) != cm.group(4) or cm.group(1) == cm.group(3):
+            raise ValueError("ContigTask::cmp: unexpected comparison %r" % cm.group(0))
+        keys.append((cm.group(2), cm.group(1) == "other"))
+    if not keys:
+        raise ValueError("ContigTask::cmp: no comparisons found")
+    w("/-- agc_compressor.rs `impl Ord for ContigTask`: the fields compared, outermost first, and")
+    w("    whether the comparison is reversed (`other.f.cmp(&self.f)`). -/")
+    w("def taskCmpKeys : List (String × Bool) := [" + ", ".join('("%s", %s)' % (k, "true" if r else "false") for k, r in keys) + "]")
     w("")
     w("end Ragc.Gen")
     text = "\n".join(out) + "\n"
